@@ -47,7 +47,7 @@ func propOfScenario(sc string) string {
 }
 
 var props = map[string]propSpec{
-	"C03": {scenarios: []string{"C03", "C03", "C08"}, level: "exploration", quickRuns: 2500, thoroughRuns: 60000, runLimit: 30 * time.Second,
+	"C03": {scenarios: []string{"C03", "C03", "C08", "C12"}, level: "exploration", quickRuns: 2500, thoroughRuns: 60000, runLimit: 30 * time.Second,
 		requiredProbes: []string{"kind:mut", "kind:del", "kind:exp", "filter:reserved-prefix", "filter:skipuntil", "partial-prefix-delivered", "ack-in-a-later-step-than-delivery"}},
 	"C04": {scenarios: []string{"C04", "C04", "C04r", "C12"}, level: "exploration", quickRuns: 2500, thoroughRuns: 60000, runLimit: 30 * time.Second,
 		requiredProbes: []string{"stale-ack", "repeated-ack", "ack-burst", "absorbed-event-tracked", "offsets-api-compared", "seq-gauge-compared"}},
@@ -71,7 +71,7 @@ var props = map[string]propSpec{
 		requiredProbes: []string{"startup-fault:none", "startup-fault:ckpt-above-high", "startup-fault:load-error", "startup-fault:load-silent", "startup-fault:seqnos-error", "startup-fault:flog-error", "startup-fault:sreq-error", "startup-fault:sreq-silent", "startup-fault:bad-membership", "startup-fault:bad-metadata", "startup-fault:file-read-error"}},
 	"C12": {scenarios: []string{"C12", "C12", "C12", "C12r"}, level: "exploration", quickRuns: 2500, thoroughRuns: 60000, runLimit: 30 * time.Second,
 		requiredProbes: []string{"transient-end", "final-end", "reopened-after-transient-end", "repeated-transient-end-same-vb", "client-stopped-after-last-final-end", "finite-completion", "active-streams-judged", "end-cause:socket-closed", "five-reopen-failures", "finite-completion-after-rebalance"}},
-	"C07": {level: "exploration", quickRuns: 2000, thoroughRuns: 50000, runLimit: 30 * time.Second,
+	"C07": {level: "exploration", quickRuns: 3500, thoroughRuns: 50000, runLimit: 30 * time.Second,
 		requiredProbes: []string{"event-arrived-before-its-coverage", "event-waited-at-the-gate", "wake-up-judged", "threshold-gauge-judged", "close-with-rollback-mitigation"}},
 	"C19": {level: "fault_enumeration", quickRuns: 4000, thoroughRuns: 100000, runLimit: 20 * time.Second,
 		requiredProbes: []string{"five-consecutive-failures", "stop:during-ping", "stop:during-retry-wait", "stop:between-rounds", "repeated-stop", "repeated-start"}},
